@@ -327,9 +327,15 @@ fn families(quick: bool) -> Vec<LmFamily> {
         Dom::Real(f64::NEG_INFINITY, 2.0),
         Dom::Real(-1.0, f64::INFINITY),
         Dom::Real(-5.0, -1.0),
+        Dom::Real(0.0, 3.0),
+        Dom::Real(-2.0, 0.0),
+        Dom::NonNegB(0.0, 0.0),
         Dom::Bool,
         Dom::Int(-3, 2),
         Dom::Int(0, 5),
+        Dom::Int(0, 1),
+        Dom::Int(-1, 0),
+        Dom::Int(2, 2),
     ];
     let mut v = vec![];
     v.push(LmFamily {
